@@ -599,3 +599,53 @@ func VPH_mainOutput() {
 	}
 	vp_Reach("end")
 }
+
+// vpFailWriter accepts limit bytes and then fails like a full disk or a
+// closed pipe (short write + error), remembering that it did.
+type vpFailWriter struct {
+	limit  int
+	data   []byte
+	failed bool
+}
+
+func (w *vpFailWriter) Write(p []byte) (int, error) {
+	room := w.limit - len(w.data)
+	if len(p) > room {
+		w.data = append(w.data, p[:room]...)
+		w.failed = true
+		return room, errors.New("no space left on device")
+	}
+	w.data = append(w.data, p...)
+	return len(p), nil
+}
+
+// VPH_mainStdoutFaults (C10, first sentence): status 0 only after a complete
+// report. stdout accepts `limit` bytes and then fails; whichever output
+// format is chosen, a report that could not be written completely makes the
+// run fail, and an undisturbed run writes the whole report.
+func VPH_mainStdoutFaults() {
+	if vp_Native() {
+		vp_Reach("end")
+		return
+	}
+	cfg := &vpConfig{consulted: map[string]int{}}
+	cap := &vpCaptured{}
+	vpInstallMainStubs(cfg, cap, "refs/heads/x")
+	mode := vp_Choice("mode", 3)
+	args := [][]string{{}, {"--json", "--json-version=1"}, {"--json", "--json-version=2"}}[mode]
+	full := []string{"TABLE\n", "null\n", "{}\n"}[mode]
+	limit := vp_Choice("limit", 8)
+	w := &vpFailWriter{limit: limit}
+	var stderr bytes.Buffer
+	err := mainImplementation(context.Background(), w, &stderr, args)
+	if w.failed {
+		vp_Assert(err != nil, "a report that could not be written completely to stdout does not end in status 0")
+	} else {
+		vp_Assert(err == nil, "runs")
+		vp_Assert(string(w.data) == full, "an undisturbed run writes the whole report")
+	}
+	if limit < len(full) {
+		vp_Assert(err != nil, "stdout too small for the report: the run fails")
+	}
+	vp_Reach("end")
+}
